@@ -7,6 +7,9 @@ ids = [p["id"] for p in props]
 
 # id -> (category, technique, text, note, design_ref)
 claimed = {
+ "C02": ("model_checking", "exhaustive peer-script x client-configuration enumeration (nd explorer) with a real crypto/tls peer run in lock-step",
+         "7 first features lists x 10 answers to the STARTTLS request (incl. pipelined fake plaintext features, plaintext after proceed, failure, garbage) x explicit/default TLS config x tee none/in/out/both x other features, plus histories of 2-3 sessions (own domain = or != the host the stream is opened to) sharing one StartTLS(nil) value. Oracle: only header + STARTTLS request precede the first TLS record; outcome is an error or a ready session with Secure bit, TLS connection state and completed handshake; pre-TLS plaintext is never acted upon; SNI = the session's own domain; tee changes neither cleartext bytes, outcome nor protected bytes (differential run).",
+         "Trusted: crypto/tls as the TLS peer (in-process certificate); TLS records recognised by header bytes. With the default client config the handshake stops at certificate verification, after the server name has been observed.", "6/C02"),
  "C03": ("model_checking", "exhaustive peer-script enumeration (nd explorer) against a reference SCRAM server / logged permission callback",
          "Initiator: 6 client mechanism lists x 8 advertised lists x every peer script of <=3 (quick) / <=4 (thorough) steps over 14 answers, where 'correct' answers are computed by a reference RFC 5802 server from the client's actual messages; receiver: 2 mechanism lists x 3 callback behaviours x every client script over 19 messages. Only-if oracle: Authn => mechanism offered by both, completed per the reference, success signalled / callback asked and accepted.",
          "Trusted: the 60-line reference SCRAM server, crypto primitives. mellium.im/sasl v0.3.2 hangs on an empty/attribute-less SCRAM challenge at the first step (dependency defect, outside /repo): those executions are skipped and counted. Server-side SCRAM and -PLUS cannot complete in this code base and are not explored.", "6/C03"),
